@@ -259,6 +259,12 @@ func emitActions(a *h.Asm, as []action, n *node) {
 		case 0:
 			a.PushU(ac.Val).PushU(ac.Slot).Op(h.SSTORE)
 		case 1:
+			if ac.Val%3 == 1 {
+				// data range starting inside the last word of memory and ending beyond it
+				a.PushU(ac.Val+0x1000).Push(new(uint256.Int).Lsh(h.U(0xa1b2c3d4e5f6+uint64(n.ID)), 8)).Op(h.MSIZE, h.MSTORE)
+				a.PushU(20+ac.Val%60).PushU(9).Op(h.MSIZE, h.SUB, h.LOG0+1)
+				continue
+			}
 			a.PushU(ac.Val + 0x1000).PushU(uint64(n.ID)).PushU(0).Op(h.MSTORE).PushU(32).PushU(0).Op(h.LOG0 + 1)
 		case 2:
 			a.PushU(ac.Slot).Op(h.SLOAD, h.POP)
